@@ -136,6 +136,18 @@ def run(ctx):
             # (the register is the *path*, whatever its spelling: suffixes that tools treat specially included)
             base = os.path.join(tmpdir, rng.choice([f"reg{i}.nir", f"reg{i}.nir", f"reg{i}.tmp", f"reg{i}.nir.tmp", f"reg{i}",
                                                     f"reg{i}.h5", f"reg.{i}.bak", f"reg{i}.tmp.nir", f"reg{i}.part", f".reg{i}"]))
+            # the register is the path given, wherever the process happens to stand: every third history runs with the
+            # working directory set to a folder holding a *different* NIR file under the same base name
+            old_cwd = None
+            if i % 3 == 0:
+                try:
+                    bdir = os.path.join(tmpdir, "elsewhere%d" % i)
+                    os.makedirs(bdir, exist_ok=True)
+                    nir.write(os.path.join(bdir, os.path.basename(base)), pool[3][1])
+                    old_cwd = os.getcwd(); os.chdir(bdir)
+                    ctx.count("histories_with_same_named_file_in_cwd")
+                except Exception:
+                    old_cwd = None
             n_ops = rng.randrange(3, 9 if ctx.tier == "quick" else 16)
             ops, last = [], None
             history = []
@@ -200,6 +212,8 @@ def run(ctx):
                     ctx.violate({"op": "history", "ops": history}, "a call left a file handle open",
                                 {**sig, "what": "fd-leak"}, observed=sorted(leaked))
                     ok = False; break
+            if old_cwd is not None:
+                os.chdir(old_cwd)
             ctx.case({"op": "history", "ops": history, "n_graphs": len(pool)}); ctx.count("histories"); ctx.count("ops", len(history))
             if ok and len(mobs) == len(history):
                 c = {"op": "fs_history", "version": nir.version, "graphs": [p[0] for p in pool],
